@@ -226,3 +226,33 @@ def _smoothing(run, prog, E):
     run.check(ok, "RANGE", "Smoothing.alpha-range", f"{init.path}:{init.fn.lineno}",
               "ExponentialSmoothingTracker.__init__", "alpha-range",
               "no unconditional range check 0 <= alpha <= 1 in the constructor", "assert 0 <= alpha <= 1")
+
+
+_W = "ixai/utils/tracker/welford.py"
+_E = "ixai/utils/tracker/exponential_smoothing.py"
+_T = "ixai/utils/tracker/base.py"
+WITNESSES = [
+    ("mean step divided by N+1", [(_W, "self.tracked_value += difference_1 / self.N", "self.tracked_value += difference_1 / (self.N + 1)")]),
+    ("difference_1 squared", [(_W, "self.sum_squares += difference_1 * difference_2", "self.sum_squares += difference_1 * difference_1")]),
+    ("sample variance max(N-1, 1)", [(_W, "return self.sum_squares / max(self.N, 1)", "return self.sum_squares / max(self.N - 1, 1)")]),
+    ("alpha and 1-alpha swapped", [(_E, "self.tracked_value = (1 - self.alpha) * self.tracked_value + self.alpha * value_i", "self.tracked_value = self.alpha * self.tracked_value + (1 - self.alpha) * value_i")]),
+    ("abs(value)", [(_W, "difference_1 = value_i - self.tracked_value", "difference_1 = abs(value_i) - self.tracked_value")]),
+    ("missing increment (smoothing)", [(_E, "        self.N += 1\n", "")]),
+    ("count incremented after the mean step", [(_W, "        self.N += 1\n        difference_1 = value_i - self.tracked_value\n        self.tracked_value += difference_1 / self.N\n",
+                                                "        difference_1 = value_i - self.tracked_value\n        self.tracked_value += difference_1 / max(self.N, 1)\n        self.N += 1\n")]),
+    ("early return before counting", [(_W, "        self.N += 1\n        difference_1", "        if value_i == self.tracked_value:\n            return self\n        self.N += 1\n        difference_1")]),
+    ("zero inputs skipped", [(_E, "        self.tracked_value = (1 - self.alpha) * self.tracked_value + self.alpha * value_i\n", "        if value_i:\n            self.tracked_value = (1 - self.alpha) * self.tracked_value + self.alpha * value_i\n")]),
+    ("rounded read-out", [(_T, "        return self.tracked_value\n", "        return round(self.tracked_value, 10)\n")]),
+    ("cached variance refreshed conditionally", [(_W, "        self.sum_squares += difference_1 * difference_2\n        return self\n", "        delta = difference_1 * difference_2\n        self.sum_squares += delta\n        if delta:\n            self._var = self.sum_squares / self.N\n        return self\n"),
+                                                 (_W, "        return self.sum_squares / max(self.N, 1)\n", "        return getattr(self, '_var', 0)\n")]),
+    ("std of the wrong quantity", [(_W, "return self.var ** 0.5", "return self.sum_squares ** 0.5")]),
+    ("alpha range check dropped", [(_E, "        assert 0 <= alpha <= 1, \"Alpha must be set to a value in between zero and one. [0,1].\"\n", "")]),
+    ("smoothing starts at one", [(_T, "        self.tracked_value = 0\n", "        self.tracked_value = 1\n")]),
+]
+SILENT = [
+    ("incremental form of the smoothing update", [(_E, "self.tracked_value = (1 - self.alpha) * self.tracked_value + self.alpha * value_i", "self.tracked_value += self.alpha * (value_i - self.tracked_value)")]),
+    ("temporaries renamed", [(_W, "difference_1", "d_old", "all"), (_W, "difference_2", "d_new", "all")]),
+    ("exact shortcut after counting", [(_W, "        self.N += 1\n        difference_1", "        self.N += 1\n        if value_i == self.tracked_value:\n            return self\n        difference_1")]),
+    ("mean as running sum form", [(_W, "self.tracked_value += difference_1 / self.N", "self.tracked_value = (self.tracked_value * (self.N - 1) + value_i) / self.N")]),
+    ("std via math.sqrt", [(_W, "return self.var ** 0.5", "import math\n        return math.sqrt(self.var)")]),
+]
